@@ -139,6 +139,12 @@ class Run(object):
           e = ar.exception
           inner = getattr(e, 'inner_exception', None)
           c['outcome'] = type(inner if inner is not None else e).__name__
+        if self.p.get('close_on_error') and self.closed_at is None and c['outcome'] != 'ok':
+          # the caller's reaction to its first failed call: it closes the client there and then (in its except block); the caller
+          # is a greenlet of its own, woken through the loop like everybody else
+          import gevent
+          self.closed_at = self.lp.now()
+          gevent.spawn(self._close)
     self._pending = still
 
   def run(self):
@@ -357,6 +363,11 @@ def histories(tier):
                           [(u1, u1 + gap + 0.35, u1 + gap + 0.35 + out2) for u1 in (4.0, 9.0, 16.0) for gap in (8.0, 16.0, 30.0) for out2 in (3.0, 12.0, 40.0)]:
         out.append({'stack': stack, 'endpoints': n, 'mode': 'refuse', 'down_at': 2.25, 'up_at': None, 'horizon': 160,
                     'downs': {'0': d2}, 'ups': {'0': u1 + 0.0125}, 'ups2': {'0': u2 + 0.0125}, 'second_outage': True})
+    # the caller closes the client in the very moment one of its calls fails
+    for n in (1, 2):
+      for mode in ('refuse', 'stall'):
+        for d in (2.25, 2.75, 7.5):
+          out.append({'stack': stack, 'endpoints': n, 'down_at': d, 'mode': mode, 'up_at': None, 'close_on_error': True, 'horizon': 140})
     # a client with the stock settings, built after another client of the same process was given its own
     for up in (40.0, 200.0):
       out.append({'stack': stack, 'endpoints': 1, 'down_at': 2.25, 'mode': 'refuse', 'up_at': up + 0.0125, 'horizon': up + 140, 'prior_client': True})
